@@ -27,8 +27,9 @@ theorem suggest_count (cfg : Cfg) (hc : cfg.shortDeliveryOk = true) (st : Study)
     (hdone : (opsOf st client).find? (fun o => !o.done) = none) :
     (suggestBody cfg st client count (.suggestions sugg [])).1.handed.length =
       min count ((ownActive st client).length + (pool st).length + sugg.length) := by
-  unfold suggestBody
-  simp only [hdone]
+  rw [suggestBody_of_free _ _ _ _ _ (hdone)]
+  unfold suggestRest
+  simp only []
   have hown : (List.filter (fun t => t.state == TState.active && t.client == client) st.trials) = ownActive st client := rfl
   have hpool : (List.filter (fun x => x.state == TState.requested) st.trials) = pool st := rfl
   simp only [hown, hpool]
